@@ -30,7 +30,7 @@ TBegin ==
      /\ pend' = <<>> /\ c2s' = <<>> /\ s2c' = <<>> /\ sidx' = 1
      /\ caller' = "live" /\ gctx' = "live" /\ firstErr' = "none"
      /\ closed' = FALSE /\ connClosed' = FALSE /\ gotExc' = FALSE /\ done' = FALSE
-     /\ info' = [buf |-> 0, cl |-> FALSE]
+     /\ info' = InfoInit
      /\ ver' = 1 /\ rows' = c.initRows /\ tail' = FALSE /\ round' = 0 /\ cbS' = 0
      /\ cbR' = 0 /\ seenRows' = FALSE /\ cblog' = <<>>
      /\ call' = 1 /\ phase' = "inDo" /\ wbroken' = FALSE
